@@ -278,6 +278,8 @@ def _eval_atom(a, values):
     try:
         if f == "sqrt":
             r = math.sqrt(xs[0])
+        elif f == "round":
+            r = round(xs[0], int(xs[1])) if len(xs) > 1 else round(xs[0])
         elif f == "exp":
             r = math.exp(xs[0])
         elif f == "log":
@@ -738,6 +740,16 @@ class Interp:
         elif isinstance(t, ast.Attribute) and isinstance(t.value, ast.Name) and t.value.id == "self":
             self.selfattrs[self._mangle(t.attr)] = v
         elif isinstance(t, (ast.Tuple, ast.List)):
+            stars = [i for i, x in enumerate(t.elts) if isinstance(x, ast.Starred)]
+            if len(stars) == 1 and isinstance(v, (list, tuple)) and len(v) >= len(t.elts) - 1:
+                i = stars[0]
+                n_after = len(t.elts) - i - 1
+                for a, b in zip(t.elts[:i], v[:i]):
+                    self.assign(a, b)
+                self.assign(t.elts[i].value, list(v[i:len(v) - n_after]))
+                for a, b in zip(t.elts[i + 1:], v[len(v) - n_after:] if n_after else []):
+                    self.assign(a, b)
+                return
             if not isinstance(v, (list, tuple)) or len(v) != len(t.elts):
                 raise Undecided("tuple unpacking of a non-tuple")
             for a, b in zip(t.elts, v):
@@ -1500,6 +1512,13 @@ class Interp:
             raise Undecided("getattr")
         if name == "bool":
             return self.truth(ev(args[0]))
+        if name == "round" and isinstance(f, ast.Name) and "round" not in self.env and args:
+            v = to_poly(ev(args[0]))
+            nd_ = to_poly(ev(args[1])) if len(args) > 1 else None
+            if v.is_const():
+                r_ = round(v.const_value(), int(nd_.const_value())) if nd_ is not None else round(v.const_value())
+                return to_poly(r_)
+            return fn("round", v, nd_ if nd_ is not None else Poly.atom("NONE"))  # NOT the value itself
         if name in ("WeakKeyDictionary", "WeakValueDictionary", "OrderedDict") and not args and not e.keywords:
             return {}  # within one interpreted scenario every key / value stays alive
         if name == "WeakSet" and not args:
@@ -1679,6 +1698,11 @@ class Interp:
                         return (1, Fraction(int(v)))
                     if isinstance(v, Poly) and v.is_const():
                         return (1, v.const_value())
+                    if isinstance(v, Poly) and (not isinstance(self.region, AutoRegion) or all(dict.__contains__(self.region, a_) for a_ in plain_atoms(v))):
+                        try:
+                            return (1, v.evalf(self.region))  # symbolic numbers with explicit representatives order by them
+                        except Undecided:
+                            pass
                     if isinstance(v, (tuple, list)):
                         parts = []
                         for i_, x in enumerate(v):
